@@ -23,6 +23,9 @@ def load(doc_or_text, via: str = "tree"):
             return Netlist(path)
         finally:
             os.remove(path)
+    if via == "handle":
+        import io
+        return Netlist(io.StringIO(doc_or_text))
     return Netlist(doc_or_text)
 
 
